@@ -28,9 +28,9 @@ def lineText (s : Input) (line : Nat) : Option Str := (splitLines s)[line - 1]?
 
 /-- `Display` of `Error::Parse`: "Varlink parse error\n{line}\n{marker:>column$}" with marker "^" -/
 def displayParse (line : Str) (column : Nat) : Str :=
-  "Varlink parse error\n".toList ++ line ++ '\n' :: List.replicate (column - 1) ' ' ++ ['^']
+  ['V', 'a', 'r', 'l', 'i', 'n', 'k', ' ', 'p', 'a', 'r', 's', 'e', ' ', 'e', 'r', 'r', 'o', 'r', '\n'] ++ line ++ '\n' :: List.replicate (column - 1) ' ' ++ ['^']
 
 /-- `Display` of `Error::Idl` -/
-def displayIdl (msg : Str) : Str := "Interface definition error: ".toList ++ msg
+def displayIdl (msg : Str) : Str := ['I', 'n', 't', 'e', 'r', 'f', 'a', 'c', 'e', ' ', 'd', 'e', 'f', 'i', 'n', 'i', 't', 'i', 'o', 'n', ' ', 'e', 'r', 'r', 'o', 'r', ':', ' '] ++ msg
 
 end VV.Idl
